@@ -42,7 +42,8 @@ LEVEL_NOTE = "Trusts the naive evaluator in vlib/graphgen.py (same Python functi
 def gen():
     from hypothesis import strategies as st
 
-    assign = st.tuples(st.just("assign"), st.integers(0, 50), st.integers(0, 40), st.sampled_from(["var", "node"]))
+    # how: through the variable, through its value node, or "inplace" = the current (numpy) value object is changed in place and assigned back
+    assign = st.tuples(st.just("assign"), st.integers(0, 50), st.integers(0, 40), st.sampled_from(["var", "node", "node", "inplace"]))
     targeted = st.tuples(st.just("update_names"), st.lists(st.integers(0, 200), min_size=1, max_size=3))
     op = st.one_of(
         assign, assign, assign,
@@ -150,6 +151,7 @@ def oracle(case):
     names = sorted(model.nodes)
     seeds = [i for i, d in enumerate(spec) if d["kind"] == "scalc"]
     saved = []
+    saved_ids = set()
     auto = True
     pending_off_assign = False
     nt_hist = False
@@ -175,7 +177,11 @@ def oracle(case):
             s = sources[op[1] % len(sources)]
             val = gg._val(spec[s], op[2])
             obj = b.objs[s]
-            if isinstance(obj, lsl.Var) and op[3] == "var":
+            cur = b.value_node(s).value
+            if op[3] == "inplace" and isinstance(cur, np.ndarray) and cur.flags.writeable and cur.shape == np.shape(val) and id(cur) not in saved_ids:
+                cur[...] = val                      # same object, new contents: still an assignment
+                b.value_node(s).value = cur
+            elif isinstance(obj, lsl.Var) and op[3] == "var":
                 obj.value = val
             else:
                 b.value_node(s).value = val
@@ -214,6 +220,8 @@ def oracle(case):
                 nt_hist = True
         elif kind == "save":
             saved.append((model.state, ref.snapshot()))
+            # arrays referenced by a saved state must not be changed in place afterwards (that would be the harness corrupting its own snapshot)
+            saved_ids.update(id(ns.value) for ns in saved[-1][0].values() if isinstance(ns.value, np.ndarray))
         elif kind == "restore":
             if saved:
                 st, snap = saved[op[1] % len(saved)]
